@@ -450,8 +450,11 @@ def finish(ctx: Ctx, audit: dict, level_note: str = ""):
         "wall_s": round(time.time() - ctx.t0, 2),
         "violations": violations,
     }
-    (VERIF / "evidence").mkdir(exist_ok=True)
-    (VERIF / "evidence" / f"{ctx.pid}.json").write_text(json.dumps(ev, indent=1, default=str))
+    # evidence/<id>.json is written only by runs against /repo itself; development runs against a
+    # private copy (VERIF_REPO) write to evidence/dev/ (not committed)
+    evdir = VERIF / "evidence" / "dev" if os.environ.get("VERIF_REPO") else VERIF / "evidence"
+    evdir.mkdir(parents=True, exist_ok=True)
+    (evdir / f"{ctx.pid}.json").write_text(json.dumps(ev, indent=1, default=str))
     for l in lines:
         print(l)
     print(
